@@ -60,18 +60,42 @@ HARNESSES += [
 _REC = [_DF, _DB + 'interrogateComponent.cxx', _DB + 'interrogateDatabase.cxx']
 _RECU = dict(_STR)
 
-def _rec(name, extra_tus, desc, shapes, quick, thorough=None, **kw):
+def _pool(cap):
+    # stream pools sized to the harness: symbolic execution time is roughly linear in each pool size
+    return ['-DVS_NOBJ=4', '-DVS_NBUF=2', '-DVS_CAP=%d' % cap]
+
+def _b(cap, unwind=5, cap_s=600, **defs):
+    us = dict(_STR)
+    us['vs_same_output.0'] = cap + 2
+    return dict(defs=defs, unwind=unwind, unwindset=us, cap=cap_s)
+
+def _rec(name, extra_tus, desc, shapes, vs_cap, quick, thorough=None, **kw):
+    kw.setdefault('cbmc_flags', _BYTEWISE + _pool(vs_cap))
     return _h('c12_rec_' + name, 'c12_records.cxx', 'harness_c12_rec_' + name, _REC + [_DB + t for t in extra_tus], desc,
               'every scalar field over all of int; every string of length 0..LMAX over all byte values; container shapes: ' + shapes,
               'field-wise equality with the record written, stream not failed, following integer intact, integers delimited, '
               're-serialising the read-back record gives the same token sequence',
-              quick, thorough, cbmc_flags=_BYTEWISE, **kw)
+              quick, thorough, **kw)
 
 HARNESSES += [
  _rec('component', [], 'InterrogateComponent::output/input (name + alt names)', '0, 1 or 2 alt names',
-      dict(defs=dict(LMAX=2), unwind=5, unwindset=_RECU, cap=600)),
+      24, _b(24, LMAX=2)),
  _rec('manifest', ['interrogateManifest.cxx'], 'InterrogateManifest::output/input', '0 or 1 alt name',
-      dict(defs=dict(LMAX=2), unwind=5, unwindset=_RECU, cap=600)),
+      32, _b(32, LMAX=2)),
+ _rec('make_seq', ['interrogateMakeSeq.cxx'], 'InterrogateMakeSeq::output/input', '0 or 1 alt name',
+      32, _b(32, LMAX=2)),
+ _rec('element', ['interrogateElement.cxx'], 'InterrogateElement::output/input in the current (3.3) format', '0 or 1 alt name',
+      48, _b(48, LMAX=2)),
+ _rec('function', ['interrogateFunction.cxx'], 'InterrogateFunction::output/input',
+      '(alt names, C wrappers, Python wrappers) in {(0,0,0), (1,1,1), (0,1,0), (1,0,1)}',
+      48, _b(48, LMAX=2)),
+ _rec('wrapper', ['interrogateFunctionWrapper.cxx'], 'InterrogateFunctionWrapper::output/input incl. the parameter vector',
+      '(alt names, parameters) in {(0,0), (1,1), (0,2)}',
+      48, _b(48, LMAX=2)),
+ _rec('type', ['interrogateType.cxx'], 'InterrogateType::output/input incl. all eight vectors, derivations and enum values',
+      'alt names and each of the eight vectors hold 0 or 1 element in the patterns none / all / alternating (two phases); '
+      '_array_size symbolic iff the array flag is set (it is serialised only then), constructor default otherwise',
+      112, _b(112, LMAX=2)),
 ]
 
 PROPERTY_INFO = {'C12': {'level': 'model_checking',
